@@ -959,8 +959,11 @@ class ProductSpaceElement(LinearSpaceElement):
                         # so we can use recursion to go on.
                         indexed = [p[indices[1:]] for p in part]
 
-                    # Finally make a wrapping space for the indexed elements
-                    new_space = ProductSpace(*(p.space for p in indexed))
+                    # Finally make a wrapping space for the indexed elements,
+                    # with the weights and exponent of the selected parts
+                    new_space = ProductSpace(
+                        *(p.space for p in indexed),
+                        **self.space._subspace_kwargs(indices[0]))
                     return new_space.element(indexed)
         else:
             raise TypeError('bad index type {}'.format(type(indices)))
